@@ -19,8 +19,10 @@ CONSTANTS Families,   \* subset of {"normal", "mixnormal", "bernoulli", "weibull
           Probs       \* Bernoulli: subset of {"interior", "sat0", "sat1"}
 VARIABLES fam, cens, pos, shp, src, yb, pb,
           term, kind,     \* the expected negative log-density of the case, as a term, and its class (shipped to the driver)
-          jac             \* its derivative with respect to the value, as a term (Gaussian families; <<"none">> elsewhere)
-vars == <<fam, cens, pos, shp, src, yb, pb, term, kind, jac>>
+          jac,            \* its derivative with respect to the value, as a term (Gaussian families; <<"none">> elsewhere)
+          aux             \* Weibull after the reference time: <<hazard, log-survival>> as terms, the two other functions the family hands
+                          \* out (ingredients of the predicted event part of a joint trajectory); <<>> elsewhere
+vars == <<fam, cens, pos, shp, src, yb, pb, term, kind, jac, aux>>
 Init0 == /\ fam \in Families /\ cens \in Censorings /\ pos \in Positions /\ shp \in Shapes /\ src \in Sources
         /\ yb \in Outcomes /\ pb \in Probs
         \* canonical values for the dimensions a family does not use
@@ -54,6 +56,9 @@ TRep == Sub(V("t"), V("tau"))
 Survival == Pow(Div(TRep, NuRep), V("rho"))                                   \* -log S(t') for t' > 0
 LogHazard == Add(Log(Div(V("rho"), NuRep)), Mul(Sub(V("rho"), Num(1, 1)), Log(Div(TRep, NuRep))))
 IsAfter == pos \in {"after", "just_after"}
+HazardTerm == Exp(LogHazard)                                                  \* h(t') = rho/nu' (t'/nu')^(rho - 1)
+LogSurvivalTerm == Neg(Survival)                                              \* log S(t') = -(t'/nu')^rho
+Aux == IF fam = "weibull" /\ IsAfter THEN <<HazardTerm, LogSurvivalTerm>> ELSE <<>>
 WeibullKind == IF cens = "censored" THEN (IF IsAfter THEN "survival" ELSE "zero")
                ELSE (IF IsAfter THEN "survival_plus_hazard" ELSE "penalty")
 WeibullNll == CASE WeibullKind = "zero" -> Num(0, 1)                          \* censored at / before the reference time: S = 1
@@ -88,7 +93,7 @@ VarsOf(t) == CASE t[1] = "num" -> {} [] t[1] = "var" -> {t[2]} [] t[1] = "none" 
                [] OTHER -> VarsOf(t[2]) \cup VarsOf(t[3])
 DerivativeClosed == VarsOf(jac) \subseteq VarsOf(term)
 
-Init == Init0 /\ term = Term /\ kind = Kind /\ jac = Jac
+Init == Init0 /\ term = Term /\ kind = Kind /\ jac = Jac /\ aux = Aux
 Next == UNCHANGED vars
 Spec == Init /\ [][Next]_vars
 
@@ -97,5 +102,8 @@ CensoredOnlySurvival == (fam = "weibull" /\ cens = "censored") => WeibullKind \i
 \* an event placed at or before the reference time: prohibitive finite penalty when observed, never NaN / infinity
 Finite == (fam = "weibull" /\ ~IsAfter) => WeibullKind \in {"penalty", "zero"}
 \* however close to the reference time, an event strictly after it is an ordinary event
+\* the density of an observed event is hazard x survival: -log(h S) is the term of the case (structural identity of the terms)
+HazardTimesSurvival == (fam = "weibull" /\ WeibullKind = "survival_plus_hazard") =>
+                          /\ aux # <<>> /\ aux[1] = Exp(LogHazard) /\ aux[2] = Neg(Survival) /\ term = Sub(aux[2][2], aux[1][2])
 CloseIsOrdinary == (fam = "weibull" /\ pos = "just_after") => WeibullKind \in {"survival", "survival_plus_hazard"}
 =============================================================================
